@@ -943,6 +943,10 @@ class reg(exp):
 
     def eval(self, env):
         r = env[self]
+        if type(r) is cst:
+            # do not alias the constant stored in env: its sf flag is rewritten
+            # by operators and by every other occurrence of this register
+            r = cst(r.v, r.size)
         r.sf = self.sf
         return r
 
